@@ -103,6 +103,12 @@ def fail_classes(e: Engine, ctx: Ctx, expr):
     out = set()
     for nm in names:
         q = e.p.resolve_expr_qname(ctx.func.module, nm)
+        if not q and isinstance(nm, ast.Name):
+            # the test sits in a helper of another module (inlined): a class
+            # of that name that is unique in the repository
+            cands = e.p.find_class(nm.id)
+            if len(cands) == 1:
+                q = cands[0].qname
         if not q:
             continue
         if e.p.is_subclass(q, QERR):
@@ -671,8 +677,8 @@ def r24(e: Engine, rep: Report):
     if not calls:
         rep.error('anchor vanished: relay._attempt in ProxyQueue.enqueue')
         return
-    src = [n for n in g.of_kind('stmt') if isinstance(n.ast, ast.Assign) and
-           n.ast.value is calls[0].ast]
+    got = common.assigned_from(g, calls[0].ast)
+    src = [s2 for _, s2 in got]
     rep.evaluations += 1
     if not src:
         rep.bad('R2.4', where, 'relay result is kept',
@@ -680,9 +686,9 @@ def r24(e: Engine, rep: Report):
                 'per-recipient failure mapping is acknowledged as success',
                 loc=calls[0].loc())
         return
-    rv = path_of(src[0].ast.targets[0], src[0].frame)
+    rv = got[0][0]
     # data-flow closure of the result variable (results = list(x.values()))
-    dep = {rv}
+    dep = {pth for pth, _ in got}
     changed = True
     while changed:
         changed = False
